@@ -1,6 +1,7 @@
 (* C01 - Serial execution: at most one callback of a process executes at any instant.
    Property theorems only; model in Sched/Model.v, proofs in Sched/Token*.v. *)
-From Ergo Require Import Common.Base Sched.Model Sched.CountFacts Sched.TokenInv Sched.TokenProofs.
+From Ergo Require Import Common.Base Sched.Model Sched.CountFacts Sched.TokenInv Sched.TokenProofs
+  Sched.MetaModel Sched.MetaProofs.
 
 (* For every number of sender goroutines (by pid or by name, any messages, any callback
    behaviour incl. errors, panics and synchronous calls), every number of Node.Kill callers,
@@ -31,6 +32,22 @@ Proof.
   unfold Inv, InvN in HI. tauto.
 Qed.
 Print Assumptions C01_no_runner_during_init.
+
+(* Meta-processes (node/meta.go, after the fix 477dde5): Start() runs by design concurrently with
+   the mailbox handler; the handler's callbacks (HandleMessage / HandleCall / HandleInspect / exit
+   handling) and Terminate are serial, for every schedule, any number of senders to the alias,
+   the parent's termination, and any moment at which Start() returns. *)
+Theorem C01_meta_serial : forall sched n r others,
+  Forall (fun p => m_init_pc p = true) others ->
+  mcount m_open (mthr (mrun true sched (m_init_cfg n r others))) <= 1.
+Proof. exact meta_no_overlap. Qed.
+Print Assumptions C01_meta_serial.
+
+(* the code as it was violated this: Start() returning while the handler is inside a callback *)
+Theorem C01_meta_serial_refuted_before_fix :
+  mcount m_open (mthr (mrun false refut_sched refut_cfg)) = 2.
+Proof. exact meta_no_overlap_refuted_before_fix. Qed.
+Print Assumptions C01_meta_serial_refuted_before_fix.
 
 (* non-vacuity: a reachable configuration in which a callback IS executing while a second
    sender and two Kill callers are in flight *)
